@@ -3,6 +3,9 @@ mod benchmarks;
 mod mempool_state;
 mod recent_execution_results;
 mod transactions_container;
+#[cfg(all(test, feature = "verif"))]
+#[path = "/verif/harness/sequencer/mempoolsim/probe.rs"]
+pub(crate) mod verif_probe;
 
 use std::{
     collections::{
